@@ -12,7 +12,7 @@ import numpy as np
 
 from . import alg
 from .alg import E, INF, Inf, lift, AlgError, ZERO, ONE
-from .values import (Unsupported, Opaque, UNINIT, Uninit, IntSym, EnumMember, FuncVal, BoundMethod, Native,
+from .values import (MaskLoad, Unsupported, Opaque, UNINIT, Uninit, IntSym, EnumMember, FuncVal, BoundMethod, Native,
                      Partial, ClassVal, Record, ExcVal, ExtRef, ModuleRef, Guard, Mask, MaskedArray,
                      keyof, mkarr, cell, full, is_arr, cells, SymIdx, SymArr)
 
@@ -347,6 +347,11 @@ class NumpyModel:
                 if op:
                     return I.opaque(f"{last} of an opaque value ({op[0].reason})", node)
                 return f(*args, **kwargs)
+        parts_ = path.split(".")
+        if parts_[0] == "builtins" and len(parts_) == 3 and parts_[1] == "str" and args and isinstance(args[0], str) and hasattr(str, last):
+            # unbound string method, str.isdecimal(c): pure, evaluated on the concrete string
+            if all(isinstance(a, (str, int, tuple)) for a in args):
+                return getattr(str, last)(*args, **kwargs)
         if root == "builtins":
             f = getattr(self, "b_" + last, None)
             if f is not None:
@@ -406,6 +411,8 @@ class NumpyModel:
             return len(x)
         if isinstance(x, Mask):
             return len(x)
+        if isinstance(x, MaskLoad):
+            raise Unsupported("len() of rows selected by a data-dependent mask (the length depends on the data)", node)
         if isinstance(x, Record) and x.cls is None:
             return len(x.attrs)
         if isinstance(x, Opaque):
@@ -438,7 +445,14 @@ class NumpyModel:
         return [self.I.call(f, a, {}, node) for a in zip(*ls)]
 
     def b_filter(self, node, f, xs):
-        return [x for x in self.I.iterate(xs, node) if self.I.truth(self.I.call(f, (x,), {}, node))]
+        out = []
+        for x in self.I.iterate(xs, node):
+            t = self.I.truth(self.I.call(f, (x,), {}, node) if f is not None else x)
+            if not isinstance(t, bool):
+                raise Unsupported("filter() with a symbolic or unmodelled predicate", node)
+            if t:
+                out.append(x)
+        return out
 
     def b_sorted(self, node, x, key=None, reverse=False):
         xs = self.I.iterate(x, node)
@@ -1213,12 +1227,12 @@ class NumpyModel:
             raise Unsupported("masked store with non-trivial trailing index", node)
         if len(m) != base.shape[0]:
             raise Unsupported("mask length mismatch", node)
-        src_is_paired = isinstance(v, tuple) and v and v[0] == "__maskload__"
+        src_is_paired = isinstance(v, MaskLoad)
         for g, c in enumerate(m.conds):
             if src_is_paired:
-                if v[2] is not m and keyof(v[2]) != keyof(m):
+                if v.mask is not m and keyof(v.mask) != keyof(m):
                     raise Unsupported("masked store from a load under a different mask", node)
-                src = v[1][g]
+                src = v.base[g]
             elif isinstance(v, np.ndarray):
                 raise Unsupported("masked store of a dense array (order depends on data)", node)
             else:
@@ -1234,7 +1248,11 @@ class NumpyModel:
         m = idx[0] if isinstance(idx, tuple) else idx
         if len(m) != base.shape[0]:
             raise Unsupported("mask length mismatch", node)
-        return ("__maskload__", base, m)
+        if all(isinstance(c, (bool, np.bool_)) for c in m.conds):
+            sel = base[np.array([bool(c) for c in m.conds], dtype=bool)]
+            rest = idx[1:] if isinstance(idx, tuple) else ()
+            return sel[(slice(None),) + tuple(rest)] if rest else sel
+        return MaskLoad(base, m)
 
     def masked_binop(self, name, a, b, node):
         ma = a if isinstance(a, MaskedArray) else None
